@@ -1,7 +1,7 @@
 #!/bin/bash
 # run_all.sh <tier> <seed>: runs every registered check once and prints one line each (used to confirm silence on the unchanged tree)
 TIER=${1:-quick}; SEED=${2:-1}
-cd /verif
+cd "$(dirname "$0")/.." || exit 2
 for p in $(python3 -c "from plan import PLAN; print(' '.join(sorted(PLAN)))"); do
-  ./check $p --tier $TIER --seed $SEED 2>&1 | grep -v "^KNOWN-FINDING" | grep -E "^VIOLATION|^INCONCLUSIVE|exit=" | cut -c1-260
+  ./check $p --tier $TIER --seed $SEED 2>&1 | grep -v "^KNOWN-FINDING" | grep -E "^VIOLATION|^INCONCLUSIVE|exit=|^  " | cut -c1-400
 done
